@@ -52,6 +52,21 @@ def rules(ctx, tier):
     tiling(ctx, r)
     r.need(4, "three slices + parser")
     out.append(r.finish())
+
+    # placement: the key is bound to a hash only after THIS transaction's file was renamed to the path of that hash
+    from . import c03, order
+    r = Rule("R5", "placement: on the commit path the log record / index update of a put is always preceded by the "
+                   "successful publish (rename onto the hash-derived path) of this transaction's own staging file",
+             "a 'content already stored' shortcut skips the publish on the strength of a stale look at the index: the "
+             "commit returns Ok with the right hash and size, but no file exists at the hash-derived path")
+    croots = c03.commit_roots(ctx)
+    r.check(len(croots) >= 1, "commit-root", None, "commit entry point(s): %s" % ", ".join(b.path for b in croots),
+            "no live API root publishes a blob")
+    if croots:
+        order.require_before(ctx, r, must, must.entry_sets(croots), "WAL_WRITE", ["PUBLISHED"], tag=":commit")
+    c03.publish_body_contract(ctx, r, must)
+    r.need(3, "commit root, log writes behind the publish, publish contract")
+    out.append(r.finish())
     return out
 
 
